@@ -396,7 +396,7 @@ def run(tier, seed):
                  "header is published before any return, that a header linked into the reader's directory stack or deferred-symlink list holds a reference of its own on every path, "
                  "that the extended-header dispatcher - evaluated for all 256 type bytes against the registry's own min_len column - never runs a decoder on fewer bytes, "
                  "that released fields are cleared before reuse, that the header is freed only at "
-                 "reference count zero, and that nullable header strings are used only under a non-NULL fact. Accesses to objects of unknown "
+                 "reference count zero, and that nullable header strings are used only under a non-NULL fact, and that sprintf/strcpy-style writers into objects of known extent have a static output bound that fits (R6). Accesses to objects of unknown "
                  "extent (C strings, libc objects, the realloc'ed raw header data) are counted by category and NOT proven; for raw header data "
                  "the guards are shown to be in force (C12) but their arithmetic sufficiency is not decided.")
     with Context(tier) as ctx:
